@@ -1700,16 +1700,16 @@ func (t *TBtree) Close() error {
 
 	t.closed = true
 
-	if t.root.tsMutated() {
-		if err := t.writeTsFile(); err != nil {
-			return err
-		}
-	}
-
 	merrors := multierr.NewMultiErr()
 
 	_, _, err := t.flushTree(0, true, false, "close")
 	merrors.Append(err)
+
+	// the ts file must not be ahead of the data persisted by the flush
+	if err == nil && t.root.tsMutated() {
+		err = t.writeTsFile()
+		merrors.Append(err)
+	}
 
 	err = t.nLog.Close()
 	merrors.Append(err)
